@@ -35,6 +35,22 @@ theorem match_iff_union_partial (toks : List Token) (hreg : RegularList toks) (t
     verdicts toks probes = some (probes.map (unionB toks)) :=
   verdicts_eq_union hreg tame hp
 
+/-- What `parse` leaves in the tree for such a list: block ranges that are well formed (first ≤ last), strictly increasing and
+pairwise disjoint from left to right (overlapping and nested configured values have been combined or dropped), and the object
+(switches + stored ranges) denotes exactly the union of the listed sets. -/
+theorem parse_invariant (toks : List Token) (hreg : RegularList toks) (tame : Tame (ctxOf toks)) :
+    ∃ acl ev, parse toks = .ok acl ev ∧
+      acl.tree.inorder.Pairwise (fun a b => a.last < b.first) ∧ (∀ v ∈ acl.tree.inorder, v.first ≤ v.last) ∧
+      ∀ x, acl.den x ↔ unionB toks x = true := by
+  have inv0 : Inv (ctxOf toks) (Tree.inorder (Tree.nil : Tree Val)) :=
+    ⟨by simp [Tree.inorder], by simp [Tree.inorder], by simp [Sorted, Tree.inorder]⟩
+  obtain ⟨acl, ev, hparse, inv, hden⟩ := parseFrom_spec tame toks ⟨false, false, .nil⟩ [] (tokOK_of_regular hreg) inv0
+  refine ⟨acl, ev, hparse, inv.sorted, fun v hv => (inv.mem v hv).1.le, ?_⟩
+  intro x
+  rw [hden x]
+  unfold Acl.den cover
+  simp [Tree.inorder]
+
 /-- The same with hypotheses one can read off a configuration: no configured value starts or ends at `0.0.0.0`, none starts at
 `255.255.255.255`, and the probe is neither of the two, also after masking with a configured mask. -/
 theorem match_iff_union_plain (toks : List Token) (hreg : RegularList toks) (hplain : PlainList toks)
